@@ -259,9 +259,25 @@ def run(ctx):
                     f"cbtexp logn=8 b=13 resb=15 dnum={dnum} logdomain={ld} lgo={lgo} data={data} e=1024 prec=30",
                     ("cbtexp", dnum, data << lgo), ("cbtexp", rank, dnum, ld, lgo == lgi, data == 0))
                 hk += 1
+    # ---- small-radix INPUT words: the LWE entering the circuit bootstrapping then has base2k <= log2(2N) = 9 and mod_switch_2n collects its bits
+    #      over several limbs (b | 9: 3; b ∤ 9: 4, 5, 6, 7); Left direction through prepare / word ops / constant-mode cbt, Right through cbtexp
+    SMALL = [(3, 24), (4, 24), (5, 25), (6, 24), (7, 28)]
+    for si, (inb, ink) in enumerate(SMALL):
+        words = [1, 0x80000000, 0xDEADBEEF, r.next() & M32] if quick else [0, 1, 0x80000000, 0xFFFFFFFF, 0xDEADBEEF] + [r.next() & M32 for _ in range(4)]
+        for wi, a in enumerate(words):
+            be = BES[(si + wi) % 2]
+            add(f"prep be={be} a={a} start=0 count=32 inb={inb} ink={ink}", f"prep a={a} start=0 count=32", a, ("prep-small", inb, wi % 2))
+        for (op, a, b) in [("add", 1, 0xFFFFFFFF), ("xor", 0x5555AAAA, r.next() & M32), ("sub", r.next() & M32, r.next() & M32)][: (2 if quick else 3)]:
+            add(f"word be={BES[si % 2]} op={op} a={a} b={b} threads=1 inb={inb} ink={ink}", f"word op={op} a={a} b={b}", c13.spec(op, a, b),
+                ("word-small", inb, op))
+        for data in ([5] if quick else [0, 3, 5, 7]):
+            add(f"cbtexp be={BES[si % 2]} rank=1 dnum=2 logdomain=3 lgo=2 data={data} lweb={inb}",
+                f"cbtexp logn=8 b=13 resb=15 dnum=2 logdomain=3 lgo=2 data={data} e=1024 prec=30", ("cbtexp", 2, data << 2), ("cbtexp", "small-radix", inb))
     cbt_vals = [0x84838281] if quick else [0x84838281, 0, 0xFFFFFFFF, r.next() & M32]
     for ci, a in enumerate(cbt_vals):
         add(f"cbt be={BES[ci % 2]} a={a}", None, None, ("cbt", BES[ci % 2]))
+    for si, (inb, ink) in enumerate(SMALL):
+        add(f"cbt be={BES[si % 2]} a={0x84838281 ^ (si * 0x01010101)} inb={inb} ink={ink}", None, None, ("cbt", BES[si % 2], inb))
 
     lines = [f"{i} {h}" for i, (h, m, w, key) in enumerate(reqs)]
     rc, outl, err = ctx.run_lines(binp, ["fheuint"], lines, timeout=3000)
